@@ -225,3 +225,17 @@ prop("C19",
           "a new channel simultaneously (non-trivial by construction); distinct by hash of the case.",
      race=True, crash_is_violation=True, quick=dict(shards=2, timeout=500), thorough=dict(shards=8, timeout=1500),
      assumptions=COMMON + ["interleavings are sampled by the Go scheduler (barriers and repetition raise the odds); absence of races is not established"])
+
+prop("C16",
+     rule="rapid draws 1-3 concurrent step-mode sessions on one server (asset bundled or generated uniform layout; $Number$ or SegmentTimeline-$Time$ "
+          "URL; optional generated stpp/wvtt subtitles; Streams() or per-segment URLs; with/without credentials; optional duration of 1-4 "
+          "segments; testNowMS near 1e4..1.7e12; normal or slow receiver) and a history of 3-14 REST operations (step, info, delete) over the "
+          "sessions. Each session has its own recording httptest receiver. After every operation the request log of every session is "
+          "judged: init segment first per representation, DASH-IF-Ingest 1.1, credentials, CMAF extension and content type, exactly one more "
+          "media segment per representation per effective step, numbers/times consecutive from the model's live edge + 1, each body "
+          "byte-identical to livesim2's own response for that segment (the last one up to the lmsg brand), duration d => d/segDur segments "
+          "with lmsg on the last, nothing after delete/finish, and every API call returns. Non-trivial = a history with >= 3 effective steps "
+          "on a session with >= 2 representations.",
+     quick=dict(shards=2, timeout=500), thorough=dict(shards=16, timeout=1500), crash_is_violation=True,
+     assumptions=COMMON + ["step mode (testNowMS) only; real-time pacing and chunked sessions are not exercised in this check",
+                           "startNumber 0 (the sender's numbering with snr_ is outside the checked domain)"])
